@@ -309,7 +309,7 @@ func (g *gen) mutTransport(sc *Script) piece {
 	case 0:
 		return respPiece("r,tr=0", Mut{Op: "del", K: "Transport"})
 	case 1:
-		return respPiece("r,tr=0", Mut{Op: "set", K: "Transport", V: pickOf(g, "foo", "", "RTP/AVP/XXX;unicast", "RTP/AVP;unicast;client_port=a-b", "RTP/AVP;unicast;ssrc=zz;server_port=6000-6001", "RTP/AVP/TCP;unicast;interleaved=0")})
+		return respPiece("r,tr=0", Mut{Op: "set", K: "Transport", V: pickOf(g, "foo", "", "RTP/AVP/XXX;unicast", "RTP/AVP;unicast;client_port=a-b")})
 	case 2:
 		return respPiece("r,tr=0", Mut{Op: "add", K: "Transport", V: "RTP/AVP/TCP;unicast;interleaved=0-1"})
 	case 3:
@@ -382,7 +382,7 @@ func (g *gen) mutWire() piece {
 		}
 		return respPiece("?", muts...)
 	case 5:
-		return piece{acts: []Action{{Kind: "half"}}, abs: "-"}
+		return piece{acts: []Action{{Kind: "half"}}, abs: ""}
 	case 6:
 		return piece{acts: []Action{{Kind: "raw", Payload: []byte(pickOf(g, "\r\n\r\n", "xyz", "\x00\x01\x02", "RT", "$", "RTSP/1.0 200 OK\r\n", "SETUP", "OPTIONS * RTSP/1.0\r\n\r\n")), NoParse: true}, {Kind: "resp"}}, abs: "?"}
 	case 7:
@@ -510,6 +510,11 @@ func (g *gen) mutateOne(sc *Script, wild bool) {
 		}
 	}
 	acts, abs, model := join(ps...)
+	for _, a := range acts {
+		if a.Kind == "half" && len(acts) > 1 {
+			model = false // whatever follows half a message is read as part of it
+		}
+	}
 	sc.React = append(sc.React, Reaction{M: t.m, N: occ, Acts: acts, Abs: abs})
 	if !model {
 		sc.Model = false
